@@ -22,6 +22,7 @@ type mscGen struct {
 	next int
 	tips []string
 	rej  []string
+	last int // the authorized signer chosen by the last step (before any mutation of the seal)
 }
 
 func (g *mscGen) label() string {
@@ -139,7 +140,57 @@ func (g *mscGen) run() {
 			r.Sample(map[string]interface{}{"mutation": mut, "outcome": out, "signers_in_effect": nset, "number": tip.num + 1, "epoch": epoch})
 		}
 	}
+	g.twins(cur, epoch, period)
 	r.Do("state")
+}
+
+// twins: as in family posa — the same signed fields with another seal, after and before the genuine header.
+func (g *mscGen) twins(from string, epoch, period uint64) {
+	r, f := g.r, g.f
+	tip := f.nodes[from]
+	if tip == nil || !tip.stored {
+		return
+	}
+	note := func(kind, out string) {
+		cls := strings.Fields(out)[0]
+		r.Hist("twin." + kind + "." + cls)
+		r.Nontrivial(fmt.Sprintf("twin/%s/%s", kind, cls))
+	}
+	id, out, _, _ := g.step(tip, "valid", epoch, period, 1<<30)
+	if id != "" && strings.HasPrefix(out, "ok") {
+		g.tips = append(g.tips, id)
+		anc := append([]*posaNode{tip}, mustAnc(&f.posaFam, tip)...)
+		set := f.mscSnapshot(anc)
+		for _, k := range r.Rng.Perm(posaPool) {
+			if !set[posaKeys[k].addr] {
+				note("after.outsider", r.Do(fmt.Sprintf("twin %s %s s%d", g.label(), id, k)))
+				break
+			}
+		}
+		note("after.garbage", r.Do(fmt.Sprintf("twin %s %s x", g.label(), id)))
+		for _, k := range r.Rng.Perm(posaPool) {
+			if set[posaKeys[k].addr] && k != g.last {
+				note("after.other-signer", r.Do(fmt.Sprintf("twin %s %s s%d", g.label(), id, k)))
+				break
+			}
+		}
+		note("after.genuine-again", r.Do(f.descr[id]))
+		tip = f.nodes[id]
+	}
+	for _, mut := range []string{"seal-x", "seal-w"} {
+		bad, out, _, _ := g.step(tip, mut, epoch, period, 1<<30)
+		if bad == "" || g.last < 0 {
+			continue
+		}
+		note("before."+mut, out)
+		gid := g.label()
+		out = r.Do(fmt.Sprintf("twin %s %s s%d", gid, bad, g.last))
+		note("before.genuine-after-"+mut, out)
+		if strings.HasPrefix(out, "ok") {
+			g.tips = append(g.tips, gid)
+			tip = f.nodes[gid]
+		}
+	}
 }
 
 func (g *mscGen) step(tip *posaNode, mut string, epoch, period uint64, voteRate int) (string, string, int, bool) {
@@ -213,6 +264,7 @@ func (g *mscGen) step(tip *posaNode, mut string, epoch, period uint64, voteRate 
 		diff = 2
 	}
 	seal := "s" + strconv.Itoa(signer)
+	g.last = signer
 	switch mut {
 	case "valid":
 	case "outsider-noturn", "outsider-inturn", "vote-by-outsider":
